@@ -166,13 +166,13 @@ theorem noPattern_applyM (ep : EnfP) (op : MOp) (h : ep.prm = []) :
     · simp only [Option.map_some, Fresh.syncCache_base, Fresh.syncCache_prm, hd.1, hd.2]
     · simp only [Option.map_some, Fresh.syncCache_base, Fresh.syncCache_prm, h]
 
-theorem noPattern_enforce (ep : EnfP) (ctx : EnforceCtx) (custom : Option String) (rvals : List Val) (h : ep.prm = []) :
+theorem noPattern_enforce (ep : EnfP) (ctx : EnforceCtx) (custom : Option String) (rvals : List Val) (h : ep.prm = [])
+    (hb : ep.unbound = []) :
     (ep.enforceStep ctx custom rvals).2 = (ep.base.enforceStep ctx custom rvals).2 ∧
     (ep.enforceStep ctx custom rvals).1.base = (ep.base.enforceStep ctx custom rvals).1 ∧
     (ep.enforceStep ctx custom rvals).1.prm = [] := by
   unfold EnfP.enforceStep
-  rw [h]
-  simp only [List.isEmpty_nil, if_true]
-  exact ⟨trivial, trivial, trivial⟩
+  rw [h, hb]
+  simp
 
 end Casbin.C04
